@@ -4,6 +4,7 @@ import os
 import shutil
 import struct
 import tempfile
+import zlib
 
 from ..core import Tally  # noqa: F401
 from .. import s2c, tlc
@@ -119,12 +120,23 @@ class Ctx:
             return self.cls(threshold=self.p["thr"], **kw)
         return self.cls(**kw)
 
+    def alt(self, o):
+        """one model action, two entry points of the code (add / add_alt with hashes(key), ...), chosen deterministically per edge"""
+        self.opno = getattr(self, "opno", 0) + 1
+        return bool(zlib.crc32(repr((self.opno, o)).encode()) & 1)
+
     def apply(self, objs, o):
         s = objs[o[1]]
         if o[0] == "add":
-            return s.add(self.rk(o[2]), o[3])
+            key = self.rk(o[2])
+            if self.alt(o):
+                return s.add_alt(s.hashes(key), o[3]) if self.kind == "cms" else s.add_alt(key, s.hashes(key), o[3])
+            return s.add(key, o[3])
         if o[0] == "rem":
-            return s.remove(self.rk(o[2]), o[3])
+            key = self.rk(o[2])
+            if self.alt(o) and self.kind != "hh":
+                return s.remove_alt(s.hashes(key), o[3]) if self.kind == "cms" else s.remove_alt(key, s.hashes(key), o[3])
+            return s.remove(key, o[3])
         if o[0] == "clear":
             return s.clear()
         if o[0] == "join":
@@ -153,7 +165,7 @@ class Ctx:
         return []
 
     def observe(self, s):
-        return {"cells": self.cells(s), "total": s.elements_added, "est": {k: s.check(self.rk(k)) for k in self.keys}, "tab": self.table(s)}
+        return {"cells": self.cells(s), "total": s.elements_added, "est": {k: s.check_alt(s.hashes(self.rk(k))) if self.alt(k) else s.check(self.rk(k)) for k in self.keys}, "tab": self.table(s)}
 
     def edge(self, e):
         t = self.t
@@ -166,6 +178,7 @@ class Ctx:
         if self.strategy:
             hf = None if self.strategy == "fnv" else strategy_fn(self.strategy)
         objs = {"A": self.new(hf), "B": self.new(hf)}
+        self.opno = 0
         last_ret = {"A": {}, "B": {}}
         try:
             for op in hist:
